@@ -130,3 +130,10 @@ const (
 func PrintOptions(elem protoreflect.Descriptor) ([]OptionPrint, error) {
 	return protoprint.VerifPrintOptions(elem)
 }
+
+// OptionTree is one option of an element before the printer simplifies it.
+type OptionTree = protoprint.VerifOptionTree
+
+func OptionTrees(elem protoreflect.Descriptor) ([]OptionTree, error) {
+	return protoprint.VerifOptionTrees(elem)
+}
